@@ -22,6 +22,7 @@ from oracles import geom, hbridge, tinyfont, corpus
 LEVEL = "exploration"
 ASSUMPTIONS = [
     "pool of generated fonts with equal units-per-em (plus the two CFF fonts of Tests/merge/data); real-world fonts with other table mixes are not covered",
+    "pool fonts declare the same scripts (DFLT only; R: grek only): merging a font whose rules sit under DFLT with one that brings a 'latn' script makes the shaper select 'latn' for the first font's Latin text too - script lists are merged literally, which is outside what is compared here; merging language systems that have required features is a documented TODO of the merger (it asserts)",
     "HarfBuzz 12.1 observes nominal glyphs, outlines, advances and shaping; glyph identity across fonts is judged by outline+advance, since merging renames glyphs",
 ]
 
